@@ -284,3 +284,13 @@ reg('C06', engine='llsym',
     note='Trusted: clang IR (sizes are baked in by the compiler: compared with gcc\'s run-time answers), llsym, z3. '
          'The Python tables and gcc facts are reference data read at run time from the working tree / the platform compiler.',
     technique='symbolic execution of LLVM IR over symbolic name strings, SMT (z3); reference tables from the working tree and gcc')
+
+reg('C08', engine='llsym+pysym',
+    text='Name-building kernels: for every type name (symbolic characters) and hole position satisfying the name invariant, the real '
+         'new_pointer_type / new_array_type / fb_prepare_ctype insert exactly the declarator text C requires (" *", "(*)" for arrays, '
+         '"[N]", "(*)(args)") at the hole, move the hole correctly and keep the invariant; ffi_getctype (compiled FFI), b_getcname and '
+         'the real FFI.getctype of api.py (proxy execution with symbolic strings, its string constants lifted) produce '
+         'name[:pos] + D(text) + name[pos:] with the same parenthesis/space rule for every replace_with text over the declarator alphabet.',
+    note='Trusted: clang IR, llsym/pysym semantics, SymStr model of str.strip/startswith. Re-parsing the text is not decided here '
+         '(C07/C30); that insertion at the hole denotes the derived type is C\'s declarator grammar.',
+    technique='symbolic execution of LLVM IR and proxy symbolic execution of api.FFI.getctype over symbolic names/texts, SMT (z3)')
